@@ -1539,15 +1539,19 @@ def run_close_unread(case, ctx):
             msg = message(i, 5 + i)
             if ends[snd].send(msg, nfc.llcp.MSG_DONTWAIT):
                 sent.append(msg)
-        # everything crosses the link and is acknowledged
-        pair.pump(2 + 2 * case["n"], first=snd)
+        # everything crosses the link and is acknowledged - or, with
+        # "crossed" k, only k exchanges happen before the sender closes: the
+        # accepted messages are then still (partly) in the sender's queue
+        crossed = case.get("crossed")
+        pair.pump(2 + 2 * case["n"] if crossed is None else crossed,
+                  first=snd)
         # some of it may be read before the peer closes
         got = []
         for _ in range(case["read_before"]):
             if ends[rcv].poll("recv", 0):
                 got.append(bytes(ends[rcv].recv()))
         cbox = pair.call(ends[snd].close, "close")
-        pair.pump(4, first=snd)
+        pair.pump(4 if crossed is None else 6 + 2 * case["n"], first=snd)
         for _ in range(case["n"] + 2):
             try:
                 if not ends[rcv].poll("recv", 0):
@@ -1561,15 +1565,19 @@ def run_close_unread(case, ctx):
         for name, exc in pair.failures():
             raise unexpected(exc, oracle="thread-died")
         ctx.label("sent:%d" % len(sent), "read-before-close:%d" % min(
-            case["read_before"], len(sent)))
+            case["read_before"], len(sent)),
+            "exchanges-before-close:%s" % ("all" if crossed is None
+                                           else crossed))
         if len(sent) > case["read_before"]:
             ctx.nontrivial()
         if got != sent:
-            raise Violation("message-lost", "%d message(s) had been accepted, "
-                            "delivered and acknowledged before %s closed; %s "
+            raise Violation("message-lost", "%d message(s) had been accepted"
+                            "%s before %s closed; %s "
                             "read %d of them before and got %r in total"
-                            % (len(sent), snd, rcv, case["read_before"],
-                               [len(x) for x in got]))
+                            % (len(sent), ", delivered and acknowledged"
+                               if crossed is None else " (%d exchanges "
+                               "happened)" % crossed, snd, rcv,
+                               case["read_before"], [len(x) for x in got]))
         if not cbox.done:
             ctx.label("close-pending")
     finally:
@@ -1586,6 +1594,13 @@ def enum_close_unread(tier, seed):
                             yield {"client": client, "sender": sender,
                                    "agf": agf, "rw": rw, "n": n,
                                    "read_before": rb}
+                        # the sender closes while accepted messages still
+                        # wait in its send queue
+                        for crossed in range(0, 2 * n):
+                            yield {"client": client, "sender": sender,
+                                   "agf": agf, "rw": rw, "n": n,
+                                   "read_before": 1 if crossed > 1 else 0,
+                                   "crossed": crossed}
 
 
 LEGS = [
@@ -1596,7 +1611,10 @@ LEGS = [
              "accepted, cross the link and are acknowledged; the receiving "
              "application reads 0..n of them, then the SENDER closes (DISC), "
              "then the receiver reads on: it gets every message once and in "
-             "order before the end of the stream.  Non-trivial = messages "
+             "order before the end of the stream; also with only 0..2n-1 "
+             "exchanges between the (non-blocking) sends and the close, so "
+             "that accepted messages still wait in the sender's queue when "
+             "it closes.  Non-trivial = messages "
              "were still unread when the sender closed."),
     Leg("machine", run=run_machine,
         gen=lambda tier: machine_case(150 if tier == "quick" else 400),
